@@ -256,6 +256,7 @@ def run(ctx):
     not_truncated(ctx, g)
     compare_exhaustive(ctx, g)
     structural_equality(ctx, g)
+    canonical_renumbering(ctx, g)
     code_content(ctx, g)
 
 
@@ -413,6 +414,47 @@ def structural_equality(ctx, g):
         ctx.ob("T8-structural-equality", ty, "PartialEq", "ok" if not missing else "violation",
                "hand-written eq compares every field" if not missing else
                "the hand-written == of %s does not compare %s with the same field of the other value: symbols that differ only there compare equal, so equal canonical forms no longer imply isomorphism" % (ty.split("::")[-1], missing))
+
+
+def canonical_renumbering(ctx, g):
+    """canonical(ds) is ds renumbered by the map of the minimal traversal code: src2img = minimal_traversal_code(ds).get_map(), img2src its inverse
+    (img2src[src2img[d]] = d for every chamber), and the rebuilt symbol has the operations and branching numbers of ds under that renumbering"""
+    ctx.clauses.append("canonical(): the symbol rebuilt under the renumbering of the minimal traversal code, with img2src the inverse of src2img over all chambers (T9)")
+    b = ctx.body("derived::canonical")
+    ctx.scan(ctx.facts.with_closures(b.name))
+    ds = ("param", 1, b.debug.get(1, ""))
+    maps = renumbered_builder(ctx, "T9-canonical-renumbering", b, g)
+    if maps is None:
+        return
+    src2img, img2src = maps
+    bad = None
+    s2 = strip(norm(b.def_origin(src2img), g)) if src2img[0] == "local" else src2img
+    if not (is_call(s2, "TraversalCode::<'a, T>::get_map") or is_call(s2, "get_map")) or not contains(s2, lambda y: is_call(y, "dsyms::minimal_traversal_code") and strip(y[2][0]) == ds):
+        # get_map's receiver is a temporary: follow it
+        recv = strip(s2[2][0]) if s2[0] == "call" and s2[2] else None
+        recv = strip(norm(b.def_origin(recv), g)) if recv is not None and recv[0] == "local" else recv
+        if not (s2[0] == "call" and s2[1].endswith("get_map") and recv is not None and is_call(recv, "dsyms::minimal_traversal_code") and strip(recv[2][0]) == ds):
+            bad = "src2img is not minimal_traversal_code(ds).get_map(): %s" % show(s2, 1)[:60]
+    stores = []
+    for bi, si, s in b.assigns():
+        if [e["k"] for e in s["place"]["p"]] == ["deref"]:
+            tgt = strip(norm(b.local_origin(s["place"]["l"]), g))
+            if is_call(tgt, "IndexMut::index_mut"):
+                stores.append((bi, strip(tgt[2][0]), strip(tgt[2][1]), strip(norm(b.rv_origin(s["rv"]), g))))
+    if not bad:
+        if len(stores) != 1:
+            bad = "%d indexed stores (expected img2src[src2img[d]] = d)" % len(stores)
+        else:
+            bi, arr, key, val = stores[0]
+            r = loop_range_of_payload(b, val, g)
+            ki = as_index(key)
+            okk = ki is not None and strip(ki[1]) == val and (ki[0] == src2img or strip(norm(b.def_origin(ki[0]), g)) == s2)
+            if arr != img2src or not okk:
+                bad = "the inverse map is not filled as img2src[src2img[d]] = d: %s[%s] = %s" % (show(arr, 1)[:20], show(key, 1)[:30], show(val, 1)[:20])
+            elif not (r and eval_int(r[0]) == 1 and r[2] and is_call(strip(r[1]), "::size")):
+                bad = "the inverse map is not filled for every chamber 1..=size()"
+    ctx.ob("T9-canonical-renumbering", b.name, "maps", "ok" if not bad else "violation",
+           "src2img = minimal_traversal_code(ds).get_map(); img2src[src2img[d]] = d for d in 1..=size()" if not bad else bad)
 
 
 def not_truncated(ctx, g):
